@@ -282,6 +282,10 @@ LIMITS = {
     'DBUS_MAXIMUM_NAME_LENGTH': 255, 'DBUS_MAXIMUM_SIGNATURE_LENGTH': 255, 'DBUS_MAXIMUM_MATCH_RULE_LENGTH': 1024,
     'DBUS_MAXIMUM_MATCH_RULE_ARG_NUMBER': 63, 'DBUS_MAXIMUM_TYPE_RECURSION_DEPTH': 32,
     'DBUS_MINIMUM_HEADER_SIZE': 16, 'DBUS_MAJOR_PROTOCOL_VERSION': 1,
+    # wire codes of the fixed header: byte-order marks and message types
+    'DBUS_LITTLE_ENDIAN': ord('l'), 'DBUS_BIG_ENDIAN': ord('B'),
+    'DBUS_MESSAGE_TYPE_INVALID': 0, 'DBUS_MESSAGE_TYPE_METHOD_CALL': 1, 'DBUS_MESSAGE_TYPE_METHOD_RETURN': 2,
+    'DBUS_MESSAGE_TYPE_ERROR': 3, 'DBUS_MESSAGE_TYPE_SIGNAL': 4,
 }
 
 
@@ -348,7 +352,7 @@ def loader_limits_clamped(prog, r):
 
 
 def c01_6(ck, prog):
-    r = ck.rule('C01.6', 'size and nesting limits are the specification\'s and are compared before use', 'W',
+    r = ck.rule('C01.6', 'size and nesting limits, byte-order marks and message-type codes are the specification\'s, and the limits are compared before use', 'W',
                 breaks='oversized arrays / messages / nesting are accepted', floor=10)
     for n, v in LIMITS.items():
         got = prog.macro_int(n)
